@@ -300,7 +300,9 @@ class Driver:
         p = subprocess.run(
             [str(self.exe)], input=data, capture_output=True, text=True, timeout=timeout, env=_clean_env()
         )
-        lines = p.stdout.splitlines()
+        lines = p.stdout.split("\n")
+        if lines and lines[-1] == "":
+            lines.pop()
         if p.returncode != 0 or len(lines) != len(requests):
             raise RuntimeError(
                 f"driver: rc={p.returncode} got {len(lines)} answers for {len(requests)} requests; stderr={p.stderr[:500]}"
